@@ -18,6 +18,11 @@ func callMethod(db *gorm.DB, fc func(value interface{}, tx *gorm.DB) bool) {
 		case reflect.Slice, reflect.Array:
 			db.Statement.CurDestIndex = 0
 			for i := 0; i < db.Statement.ReflectValue.Len(); i++ {
+				if elem := db.Statement.ReflectValue.Index(i); db.Statement.ReflectValue.Kind() == reflect.Array && elem.Kind() == reflect.Ptr && elem.IsNil() {
+					// an array of pointers keeps nil behind the records it holds: no record, no hook
+					db.Statement.CurDestIndex++
+					continue
+				}
 				if value := reflect.Indirect(db.Statement.ReflectValue.Index(i)); value.CanAddr() {
 					fc(value.Addr().Interface(), tx)
 				} else {
